@@ -53,7 +53,7 @@ Theorem C06_attrs_from_session :
     let a := fst (inner_assertion resp) in
     ni_value (a_nameid a) = ss_nameid s /\ a_session_index a = ss_index s /\ a_authn_instant a = ss_create s /\
     values_from s (a_attributes a) /\
-    (exists pre post, a_attributes a = pre ++ ss_custom s ++ post) /\
+    (exists pre post, a_attributes a = (pre ++ ss_custom s ++ post)%list) /\
     (ss_groups s <> [] ->
        In (uri_attr "eduPersonAffiliation" "urn:oid:1.3.6.1.4.1.5923.1.1.1.1" (map xs_val (ss_groups s)))
           (a_attributes a)).
